@@ -528,7 +528,8 @@ class Interp:
         if kind == 'patched':
             return self.bind_patched(payload, o, owner)
         # class-level attribute
-        if any(f.name == name and not f.classvar and not f.has_default for c in o.cls.mro for f in c.fields):
+        if self.is_dataclass_like(o.cls) and any(f.name == name and not f.classvar and not f.has_default
+                                                 for c in o.cls.mro for f in c.fields):
             self.raise_('AttributeError', name)
         if isinstance(payload, ast.Name) and payload.id in owner.methods:     # `inverse = transpose` in a class body
             fi = owner.methods[payload.id]
